@@ -10,6 +10,7 @@
 #include <sys/personality.h>
 
 #include <atomic>
+#include <cmath>
 #include <thread>
 
 #include "common/canon.h"
@@ -72,6 +73,32 @@ static void MakeCase(Rng &r, Case *c, bool force_mesh = false, bool force_pc = f
   gp.narrow_int32 = true;
   c->g = vf::GenGeo(r, gp);
   c->o = vf::GenOpts(r, c->g);
+  // Explicit quantization (caller-supplied origin / range) on some quantized float attributes - also with an origin
+  // of fewer dimensions than the attribute has components (the API takes the dimension count from the caller; the
+  // components it does not cover use origin 0, so their data is shifted to start at 0).
+  c->o.explicit_q.assign(c->g.atts.size(), vf::EncOpts::Explicit());
+  for (size_t a = 0; a < c->g.atts.size(); ++a) {
+    vf::Attr &at = c->g.atts[a];
+    // ExpertEncoder only: the basic Encoder keys options by attribute *type*, and a box computed for one attribute would
+    // be applied to every other attribute of that type, whose values lie outside it (a caller error with its own,
+    // unlisted, consequences in the encoder).
+    if (!c->o.expert || at.dt != DT_FLOAT32 || c->o.qbits[a] <= 0 || at.nvals == 0 || r.below(3) != 0) continue;
+    std::vector<double> mn(at.nc, 1e300), mx(at.nc, -1e300);
+    bool finite = true;
+    for (size_t i = 0; i < at.nvals; ++i) for (int k = 0; k < at.nc; ++k) { float v; memcpy(&v, at.data.data() + (i * at.nc + k) * 4, 4); if (!std::isfinite(v) || std::fabs(v) > 1e15f) finite = false; mn[k] = std::min<double>(mn[k], v); mx[k] = std::max<double>(mx[k], v); }
+    if (!finite) continue;
+    const int dims = (at.nc > 1 && r.below(2)) ? 1 + static_cast<int>(r.below(at.nc - 1)) : at.nc;
+    for (int k = dims; k < at.nc; ++k) {  // uncovered components: shift the data so that it starts at 0
+      for (size_t i = 0; i < at.nvals; ++i) { float v; memcpy(&v, at.data.data() + (i * at.nc + k) * 4, 4); v = static_cast<float>(v - mn[k]); memcpy(at.data.data() + (i * at.nc + k) * 4, &v, 4); }
+      mx[k] -= mn[k]; mn[k] = 0;
+    }
+    vf::EncOpts::Explicit ex;
+    ex.bits = std::min(c->o.qbits[a], 18);
+    double need = 0;
+    for (int k = 0; k < at.nc; ++k) { const double org = k < dims ? mn[k] - 0.01 * (mx[k] - mn[k] + 1e-3) : 0.0; if (k < dims) ex.origin.push_back(static_cast<float>(org)); need = std::max(need, mx[k] - (k < dims ? static_cast<double>(ex.origin[k]) : 0.0)); }
+    ex.range = static_cast<float>(need * 1.01 + 1e-6);
+    c->o.explicit_q[a] = ex;
+  }
   vf::AvoidHugeEntropyTables(c->g, &c->o);
   if (c->g.is_mesh) { c->mesh = vf::ToMesh(c->g); c->pc = c->mesh.get(); } else { c->pcu = vf::ToPointCloud(c->g); c->pc = c->pcu.get(); }
 }
